@@ -227,6 +227,7 @@ type vfWireScen struct {
 	SlowStdout  bool           `json:"slowStdout"`  // standard output is a pipe whose reader takes 2 KB every 2 ms
 	FlapAfter   int            `json:"flapAfter"`   // after this many probes the interface of sx goes down ...
 	FlapDownMS  int            `json:"flapDownMs"`  // ... for this long, then up again
+	UlimitN     int            `json:"ulimitN"`     // soft limit on open file descriptors of the sx process (0: inherited)
 }
 
 func vfIsProbe(b []byte, myMAC net.HardwareAddr) bool {
@@ -354,6 +355,9 @@ func TestVfWire(t *testing.T) {
 			injectFn = tun.inject
 		}
 		cmd := exec.Command(sx, args...)
+		if sc.UlimitN > 0 {
+			cmd = exec.Command("sh", append([]string{"-c", fmt.Sprintf(`ulimit -n %d; exec "$0" "$@"`, sc.UlimitN), sx}, args...)...)
+		}
 		var stdout, stderr bytes.Buffer
 		cmd.Stdout, cmd.Stderr = &stdout, &stderr
 		var slowDone chan struct{}
